@@ -7,7 +7,8 @@ W=$(mktemp -d /tmp/verif-demo.XXXXXX)
 trap 'rm -rf "$W"' EXIT
 rsync -a --exclude target --exclude .git "$SRC"/ "$W"/
 cp "$DEMO" "$W/src/verif_demo.rs"
-printf '\n#[cfg(test)]\nmod verif_demo;\n' >> "$W/src/lib.rs"
+HOST=$(sed -n 's,^//@host ,,p' "$DEMO" | head -1); HOST=${HOST:-src/lib.rs}
+printf '\n#[cfg(test)]\n#[path = "%s/src/verif_demo.rs"]\nmod verif_demo;\n' "$W" >> "$W/$HOST"
 mkdir -p /verif/.cache/demo-target
 cd "$W" && CARGO_TARGET_DIR=/verif/.cache/demo-target CARGO_NET_OFFLINE=true cargo test --offline --lib verif_demo 2>&1 | tail -25
 exit ${PIPESTATUS[0]}
